@@ -39,8 +39,9 @@ const E_EMPTY_PLAN: u32 = 0x10002;
 const E_POOL: u32 = 0x10003;
 const E_BROKEN: u32 = 0x10004;
 const E_OTHER: u32 = 0x1ffff;
-/// client-side timeout of the cases that contain a `T` fault; every other reply of such a
-/// case must arrive within it (generous: loopback round trips take well under a millisecond)
+/// client-side timeout of the cases that contain a `T` fault.  If the machine freezes for longer
+/// than this while another reply of such a case is outstanding, the timeout strikes earlier than
+/// scripted; the driver accepts that (a timeout at or before the scripted one), see driver.ml
 const TIMEOUT_MS: u64 = 4000;
 
 #[derive(Clone, Debug, PartialEq)]
@@ -277,9 +278,18 @@ async fn make_env(nodes: usize) -> Env {
     let table = TableDef::new("t", &[("pk", CqlType::Int)], &[("ck", CqlType::Int)], &[("v", CqlType::Int)]);
     let spec = ClusterSpec::uniform("c07", &[("dc1", nodes)], 1, 4, 1).with_keyspace(KeyspaceDef::simple("ks", nodes as u32).with_table(table.clone()));
     let cluster = MockCluster::start(spec).await.expect("start mock cluster");
+    // no wall-clock bound the runner did not choose: no default request timeout (30 s in the
+    // default profile), no keepalive or metadata traffic that could time out when the machine
+    // freezes for a while
+    let profile = scylla::client::execution_profile::ExecutionProfile::builder().request_timeout(None).build();
     let session: Session = SessionBuilder::new()
         .known_node_addr(cluster.contact_point(0))
-        .connection_timeout(Duration::from_secs(10))
+        .connection_timeout(Duration::from_secs(60))
+        .default_execution_profile_handle(profile.into_handle())
+        .keepalive_interval(Duration::from_secs(3600))
+        .keepalive_timeout(Duration::from_secs(3600))
+        .cluster_metadata_refresh_interval(Duration::from_secs(3600))
+        .metadata_request_clientside_timeout(Duration::from_secs(600))
         .build()
         .await
         .expect("session");
@@ -377,13 +387,7 @@ async fn run_case(env: &mut Env, c: &Case) -> String {
     }
     let id = env.cluster.prepared_id(&text);
     env.cluster.script(NodeSel::Any, text.as_str(), actions_for(env, c));
-    let timeout = if c.has_timeout() {
-        Some(Duration::from_millis(TIMEOUT_MS))
-    } else if std::env::var("C07_DEBUG").is_ok() {
-        Some(Duration::from_millis(3000))
-    } else {
-        None
-    };
+    let timeout = if c.has_timeout() { Some(Duration::from_millis(TIMEOUT_MS)) } else { None };
     let retry: Arc<dyn RetryPolicy> = if c.policy == "x" { Arc::new(ScriptedPolicy) } else { Arc::new(DefaultRetryPolicy::new()) };
     let idem = c.policy != "dn";
 
@@ -484,33 +488,8 @@ async fn run_case(env: &mut Env, c: &Case) -> String {
             }
         }
     }
-    if std::env::var("C07_DEBUG").is_ok() && !c.has_timeout() && items.iter().any(|i| i == "e10000" || i == "f10000") {
-        tokio::time::sleep(Duration::from_millis(4000)).await;
-    }
     let trace = env.cluster.drain_trace();
     let keys = keys_from_trace(&trace, &text, &id);
-    if std::env::var("C07_DEBUG").is_ok() && !c.has_timeout() && items.iter().any(|i| i == "e10000" || i == "f10000") {
-        eprintln!("C07_DEBUG unexpected timeout in: {}", c.line());
-        let mut ours: Vec<(u64, i16)> = Vec::new();
-        for e in &trace {
-            match &e.ev {
-                Ev::In { opcode, body, stream, .. } => {
-                    let mine = (*opcode == op::QUERY && wire::decode_query(body).is_ok_and(|q| q.text == text))
-                        || (*opcode == op::EXECUTE && wire::decode_execute(body, false).is_ok_and(|x| x.id == id));
-                    if mine {
-                        ours.push((e.conn_id, *stream));
-                        eprintln!("  t={} node={} conn={} IN  stream={} opcode={}", e.t_ns / 1000, e.node, e.conn_id, stream, opcode);
-                    }
-                }
-                Ev::Out { opcode, body, stream, written, .. } if ours.contains(&(e.conn_id, *stream)) => {
-                    eprintln!("  t={} node={} conn={} OUT stream={} opcode={} len={} written={}", e.t_ns / 1000, e.node, e.conn_id, stream, opcode, body.len(), written);
-                }
-                Ev::Close { by } => eprintln!("  t={} node={} conn={} CLOSE {:?}", e.t_ns / 1000, e.node, e.conn_id, by),
-                Ev::Open { .. } => eprintln!("  t={} node={} conn={} OPEN", e.t_ns / 1000, e.node, e.conn_id),
-                _ => {}
-            }
-        }
-    }
     if c.has_break() {
         wait_pools(&env.cluster, env.nodes).await;
     }
@@ -779,7 +758,11 @@ async fn run_group(nodes: usize, cases: Vec<(usize, Case)>) -> Vec<(usize, Strin
     let mut env = make_env(nodes).await;
     let mut out = Vec::new();
     for (idx, c) in cases {
-        let o = run_case(&mut env, &c).await;
+        // watchdog: a case that neither finishes nor fails within 5 minutes is reported as a hang
+        let o = match tokio::time::timeout(Duration::from_secs(300), run_case(&mut env, &c)).await {
+            Ok(o) => o,
+            Err(_) => "hang none".to_string(),
+        };
         out.push((idx, c.line(), o));
     }
     drop(env.session);
